@@ -15,6 +15,8 @@ pub enum Val {
     Null,
     Int(i64),
     Str(String),
+    /// SQL text used as is (DEFAULT, numeric literals with a fraction); never compared
+    Raw(String),
 }
 
 impl Val {
@@ -23,6 +25,7 @@ impl Val {
             Val::Null => "NULL".into(),
             Val::Int(i) => i.to_string(),
             Val::Str(s) => format!("'{}'", s),
+            Val::Raw(s) => s.clone(),
         }
     }
     pub fn canon(&self) -> String {
@@ -30,11 +33,11 @@ impl Val {
             Val::Null => "N".into(),
             Val::Int(i) => format!("I{}", i),
             Val::Str(s) => format!("S{}", sx::hex_str(s)),
+            Val::Raw(s) => format!("S{}", sx::hex_str(s)),
         }
     }
     pub fn of(v: &SqlValue) -> Val {
-        let c = canon::val(v);
-        Val::of_canon(&c)
+        Val::of_canon(&cv(v))
     }
     pub fn of_canon(c: &str) -> Val {
         if c == "N" {
@@ -49,14 +52,48 @@ impl Val {
     }
 }
 
+/// canonical value for this harness and the model: INTEGER / VARCHAR / CHAR / NULL / BOOLEAN as
+/// usual; every other type (NUMERIC with a fraction, DATE, ...) as an opaque string of its
+/// canonical text
+pub fn cv(v: &SqlValue) -> String {
+    let c = canon::val(v);
+    match c.chars().next() {
+        Some('I') | Some('S') | Some('N') | Some('B') => c,
+        _ => format!("S{}", sx::hex_str(&c)),
+    }
+}
+
+pub fn cv_row(r: &[SqlValue]) -> String {
+    format!("({})", r.iter().map(cv).collect::<Vec<_>>().join(" "))
+}
+
 pub type VRow = Vec<Val>;
 
 pub fn row_canon(r: &VRow) -> String {
     format!("({})", r.iter().map(|v| v.canon()).collect::<Vec<_>>().join(" "))
 }
 
+/// column kinds whose stored form may differ from what the executor hands to storage
+#[derive(Clone, Debug, PartialEq)]
+pub enum Kind {
+    /// INT or VARCHAR(20) according to `int_col`
+    Plain,
+    /// CHAR(n): blank padded / truncated by characters
+    Char(usize),
+    /// VARCHAR(3)
+    Varchar3,
+    /// NUMERIC(6,2)
+    Numeric,
+    /// DATE
+    Date,
+    /// INT DEFAULT v
+    DefInt(i64),
+}
+
 #[derive(Clone, Debug)]
 pub struct Schema {
+    /// per column; empty = all Plain
+    pub kinds: Vec<Kind>,
     /// true = INT, false = VARCHAR
     pub int_col: Vec<bool>,
     pub pk: bool,
@@ -68,7 +105,15 @@ impl Schema {
     pub fn create_sql(&self) -> String {
         let mut cols = vec![];
         for (i, is_int) in self.int_col.iter().enumerate() {
-            let mut c = format!("c{} {}", i, if *is_int { "INT" } else { "VARCHAR(20)" });
+            let ty = match self.kind(i) {
+                Kind::Plain => (if *is_int { "INT" } else { "VARCHAR(20)" }).to_string(),
+                Kind::Char(n) => format!("CHAR({})", n),
+                Kind::Varchar3 => "VARCHAR(3)".to_string(),
+                Kind::Numeric => "NUMERIC(6,2)".to_string(),
+                Kind::Date => "DATE".to_string(),
+                Kind::DefInt(v) => format!("INT DEFAULT {}", v),
+            };
+            let mut c = format!("c{} {}", i, ty);
             if i == 0 && self.pk {
                 c.push_str(" PRIMARY KEY");
             }
@@ -81,6 +126,13 @@ impl Schema {
     }
     pub fn ncols(&self) -> usize {
         self.int_col.len()
+    }
+    pub fn kind(&self, c: usize) -> Kind {
+        self.kinds.get(c).cloned().unwrap_or(Kind::Plain)
+    }
+    /// columns on which the harness evaluates predicates itself
+    pub fn plain_cols(&self) -> Vec<usize> {
+        (0..self.ncols()).filter(|c| matches!(self.kind(*c), Kind::Plain | Kind::DefInt(_))).collect()
     }
 }
 
@@ -243,7 +295,7 @@ impl Obs {
 }
 
 pub fn key_canon(k: &[SqlValue]) -> String {
-    format!("({})", k.iter().map(canon::val).collect::<Vec<_>>().join(" "))
+    format!("({})", k.iter().map(cv).collect::<Vec<_>>().join(" "))
 }
 
 fn hash_dump(m: &std::collections::HashMap<Vec<SqlValue>, usize>) -> Vec<(String, usize)> {
@@ -256,7 +308,7 @@ fn hash_dump(m: &std::collections::HashMap<Vec<SqlValue>, usize>) -> Vec<(String
 pub fn observe(db: &Db, table: &str) -> Option<Result<Obs, String>> {
     let t = db.db.get_table(table)?;
     let mut o = Obs::default();
-    o.rows = t.scan().iter().map(|r| canon::row(&r.values)).collect();
+    o.rows = t.scan().iter().map(|r| cv_row(&r.values)).collect();
     if let Some(pk) = t.primary_key_index() {
         o.hidx.push(hash_dump(pk));
     }
@@ -293,7 +345,7 @@ pub fn rebuild_from_scan(db: &Db, table: &str) -> Option<Obs> {
     let t = db.db.get_table(table)?;
     let rows: Vec<&Vec<SqlValue>> = t.scan().iter().map(|r| &r.values).collect();
     let mut o = Obs::default();
-    o.rows = rows.iter().map(|r| canon::row(r)).collect();
+    o.rows = rows.iter().map(|r| cv_row(r)).collect();
     let build_hash = |cols: &Vec<usize>, skip_null: bool| -> Vec<(String, usize)> {
         let mut m: BTreeMap<String, usize> = BTreeMap::new();
         for (p, r) in rows.iter().enumerate() {
@@ -553,7 +605,35 @@ pub fn gen_val(r: &mut Rng, is_int: bool, nullable: bool) -> Val {
     }
 }
 
+/// a value for column `c` (not a key column)
+pub fn gen_col_val(r: &mut Rng, s: &Schema, c: usize, nullable: bool, allow_default: bool) -> Val {
+    match s.kind(c) {
+        Kind::Plain => gen_val(r, s.int_col[c], nullable),
+        _ if nullable && r.chance(1, 8) => Val::Null,
+        // shorter / equal / longer than n, empty, trailing blanks, 2-, 3-, 4-byte code points incl.
+        // the window chars < n < bytes
+        Kind::Char(_) => Val::Str(
+            r.pick(&["a", "ab", "abcd", "abcdef", "", "a ", "\u{6771}\u{4eac}", "\u{e9}\u{e9}\u{e9}", "\u{e9}", "\u{1f600}b", "\u{65e5}\u{672c}\u{8a9e}\u{65e5}\u{672c}", "\u{e9}\u{e9}\u{e9}\u{e9}", "z\u{1f600}"])
+                .to_string(),
+        ),
+        Kind::Varchar3 => Val::Str(r.pick(&["a", "abc", "ab ", "", "\u{e9}\u{e9}\u{e9}", "\u{6771}\u{4eac}", "abcd"]).to_string()),
+        Kind::Numeric => Val::Raw(r.pick(&["1.005", "2.5", "3", "10.999", "0.1", "7.125", "42"]).to_string()),
+        Kind::Date => Val::Str(r.pick(&["2024-01-05", "2024-1-5", "1999-12-31", "2024-02-29"]).to_string()),
+        Kind::DefInt(_) => {
+            if allow_default && r.chance(1, 2) {
+                Val::Raw("DEFAULT".into())
+            } else {
+                gen_val(r, true, nullable)
+            }
+        }
+    }
+}
+
 pub fn gen_row(r: &mut Rng, s: &Schema, next_id: &mut i64) -> VRow {
+    gen_row_d(r, s, next_id, true)
+}
+
+pub fn gen_row_d(r: &mut Rng, s: &Schema, next_id: &mut i64, allow_default: bool) -> VRow {
     (0..s.ncols())
         .map(|c| {
             if c == 0 && s.pk {
@@ -573,14 +653,15 @@ pub fn gen_row(r: &mut Rng, s: &Schema, next_id: &mut i64) -> VRow {
                     Val::Str(format!("u{}", r.range(0, 40)))
                 }
             } else {
-                gen_val(r, s.int_col[c], true)
+                gen_col_val(r, s, c, true, allow_default)
             }
         })
         .collect()
 }
 
 pub fn gen_pred(r: &mut Rng, s: &Schema, max_id: i64) -> Pred {
-    let c = r.below(s.ncols() as u64) as usize;
+    let plain = s.plain_cols();
+    let c = *r.pick(&plain);
     if r.chance(1, 10) {
         return Pred::IsNull(c);
     }
@@ -601,111 +682,148 @@ pub fn gen_pred(r: &mut Rng, s: &Schema, max_id: i64) -> Pred {
     Pred::Cmp(c, *r.pick(ops), v)
 }
 
-pub fn gen_case(r: &mut Rng, cfg: &GenCfg) -> Case {
+pub fn gen_schema(r: &mut Rng) -> Schema {
     let ncols = r.range(2, 4) as usize;
     let mut int_col = vec![true];
+    let mut kinds = vec![Kind::Plain];
     for _ in 1..ncols {
-        int_col.push(r.chance(2, 3));
+        let is_int = r.chance(3, 5);
+        let kind = if is_int {
+            if r.chance(1, 6) { Kind::DefInt(7) } else { Kind::Plain }
+        } else {
+            match r.below(10) {
+                0..=3 => Kind::Plain,
+                4..=6 => Kind::Char(4),
+                7 => Kind::Varchar3,
+                8 => Kind::Numeric,
+                _ => Kind::Date,
+            }
+        };
+        int_col.push(is_int);
+        kinds.push(kind);
     }
     let pk = r.chance(3, 4);
     let mut uniques = vec![];
     for c in 1..ncols {
-        if r.chance(1, 4) {
+        if kinds[c] == Kind::Plain && r.chance(1, 4) {
             uniques.push(c);
         }
     }
-    let schema = Schema { int_col, pk, uniques };
-    let mut stmts = vec![];
-    let mut idx_names: Vec<String> = vec![];
-    let mut next_idx = 0;
-    let mut next_id = 0i64;
-    let mut in_txn = false;
-    let mut saves: Vec<String> = vec![];
-    let gen_index = |r: &mut Rng, n: &mut i32, names: &mut Vec<String>, s: &Schema| -> Stmt {
-        *n += 1;
-        let name = format!("ix{}", n);
-        names.push(name.clone());
-        let mut cols = vec![r.below(s.ncols() as u64) as usize];
-        if r.chance(1, 3) {
-            let c2 = r.below(s.ncols() as u64) as usize;
-            if c2 != cols[0] {
-                cols.push(c2);
-            }
+    Schema { kinds, int_col, pk, uniques }
+}
+
+/// mutable generator state shared by the phases of one case
+pub struct GenState {
+    pub idx_names: Vec<String>,
+    pub next_idx: i32,
+    pub next_id: i64,
+    pub in_txn: bool,
+    pub saves: Vec<String>,
+}
+
+impl GenState {
+    pub fn new() -> GenState {
+        GenState { idx_names: vec![], next_idx: 0, next_id: 0, in_txn: false, saves: vec![] }
+    }
+}
+
+fn gen_index(r: &mut Rng, st: &mut GenState, s: &Schema) -> Stmt {
+    st.next_idx += 1;
+    let name = format!("ix{}", st.next_idx);
+    st.idx_names.push(name.clone());
+    let mut cols = vec![r.below(s.ncols() as u64) as usize];
+    if r.chance(1, 3) {
+        let c2 = r.below(s.ncols() as u64) as usize;
+        if c2 != cols[0] {
+            cols.push(c2);
         }
-        Stmt::CreateIndex(name, cols, false)
-    };
+    }
+    Stmt::CreateIndex(name, cols, false)
+}
+
+pub fn gen_case(r: &mut Rng, cfg: &GenCfg) -> Case {
+    let schema = gen_schema(r);
+    let mut st = GenState::new();
+    let mut stmts = vec![];
     let n_init_idx = r.range(0, 2);
     for _ in 0..n_init_idx {
-        stmts.push(gen_index(r, &mut next_idx, &mut idx_names, &schema));
+        stmts.push(gen_index(r, &mut st, &schema));
     }
     let n_init_rows = r.range(0, 6);
     for _ in 0..n_init_rows {
-        stmts.push(Stmt::Insert(vec![gen_row(r, &schema, &mut next_id)]));
+        stmts.push(Stmt::Insert(vec![gen_row(r, &schema, &mut st.next_id)]));
     }
+    stmts.extend(gen_stmts(r, cfg, &schema, &mut st));
+    Case { schema, stmts }
+}
+
+pub fn gen_stmts(r: &mut Rng, cfg: &GenCfg, schema: &Schema, g: &mut GenState) -> Vec<Stmt> {
+    let mut stmts = vec![];
     let len = r.range(cfg.len_lo, cfg.len_hi);
     for _ in 0..len {
         let w = r.below(100 + cfg.txn_weight + cfg.savepoint_weight);
         let st = if w < 22 {
             let k = if r.chance(1, 4) { r.range(2, 4) } else { 1 };
-            Stmt::Insert((0..k).map(|_| gen_row(r, &schema, &mut next_id)).collect())
+            Stmt::Insert((0..k).map(|_| gen_row(r, schema, &mut g.next_id)).collect())
         } else if w < 44 {
             let c = r.below(schema.ncols() as u64) as usize;
-            let e = if schema.int_col[c] && r.chance(1, 2) {
+            let plain = matches!(schema.kind(c), Kind::Plain | Kind::DefInt(_));
+            let e = if plain && schema.int_col[c] && r.chance(1, 2) {
                 SetE::Add(r.range(1, 50))
             } else if c == 0 && schema.pk {
-                SetE::Const(Val::Int(r.range(0, next_id + 3)))
+                SetE::Const(Val::Int(r.range(0, g.next_id + 3)))
             } else if schema.uniques.contains(&c) {
                 SetE::Const(if schema.int_col[c] { Val::Int(r.range(0, 40)) } else { Val::Str(format!("u{}", r.range(0, 40))) })
             } else {
-                SetE::Const(gen_val(r, schema.int_col[c], true))
+                SetE::Const(gen_col_val(r, schema, c, true, false))
             };
             let mut sets = vec![(c, e)];
             if r.chance(1, 5) {
                 let c2 = r.below(schema.ncols() as u64) as usize;
                 if c2 != c && !(c2 == 0 && schema.pk) && !schema.uniques.contains(&c2) {
-                    sets.push((c2, SetE::Const(gen_val(r, schema.int_col[c2], true))));
+                    sets.push((c2, SetE::Const(gen_col_val(r, schema, c2, true, false))));
                 }
             }
-            let p = if r.chance(1, 8) { Pred::All } else { gen_pred(r, &schema, next_id) };
+            let p = if r.chance(1, 8) { Pred::All } else { gen_pred(r, schema, g.next_id) };
             Stmt::Update(sets, p)
         } else if w < 62 {
-            Stmt::Delete(gen_pred(r, &schema, next_id))
+            Stmt::Delete(gen_pred(r, schema, g.next_id))
         } else if w < 66 {
             Stmt::Delete(Pred::All)
         } else if w < 69 {
             Stmt::Truncate
         } else if w < 76 {
-            Stmt::Replace(gen_row(r, &schema, &mut next_id))
+            Stmt::Replace(gen_row_d(r, schema, &mut g.next_id, false))
         } else if w < 82 {
-            let row = gen_row(r, &schema, &mut next_id);
+            let row = gen_row_d(r, schema, &mut g.next_id, false);
             let c = r.range(1, schema.ncols() as i64 - 1) as usize;
             let v = if schema.uniques.contains(&c) {
                 if schema.int_col[c] { Val::Int(r.range(0, 40)) } else { Val::Str(format!("u{}", r.range(0, 40))) }
             } else {
-                gen_val(r, schema.int_col[c], false)
+                gen_col_val(r, schema, c, false, false)
             };
             Stmt::Upsert(row, c, v)
         } else if w < 92 {
-            if in_txn && !cfg.index_ddl_in_txn {
-                Stmt::Insert(vec![gen_row(r, &schema, &mut next_id)])
-            } else if !idx_names.is_empty() && r.chance(2, 5) {
-                let i = r.below(idx_names.len() as u64) as usize;
-                Stmt::DropIndex(idx_names.remove(i))
+            if g.in_txn && !cfg.index_ddl_in_txn {
+                Stmt::Insert(vec![gen_row(r, schema, &mut g.next_id)])
+            } else if !g.idx_names.is_empty() && r.chance(2, 5) {
+                let i = r.below(g.idx_names.len() as u64) as usize;
+                Stmt::DropIndex(g.idx_names.remove(i))
             } else {
-                gen_index(r, &mut next_idx, &mut idx_names, &schema)
+                gen_index(r, g, schema)
             }
         } else if w < 100 + cfg.txn_weight {
             if w < 100 && cfg.txn_weight == 0 {
-                Stmt::Insert(vec![gen_row(r, &schema, &mut next_id)])
-            } else if !in_txn {
-                in_txn = true;
-                saves.clear();
+                Stmt::Insert(vec![gen_row(r, schema, &mut g.next_id)])
+            } else if !g.in_txn {
+                g.in_txn = true;
+                g.saves.clear();
                 Stmt::Begin
             } else if r.chance(1, 2) {
-                in_txn = false;
+                g.in_txn = false;
                 Stmt::Rollback
             } else if r.chance(2, 3) {
-                in_txn = false;
+                g.in_txn = false;
                 Stmt::Commit
             } else {
                 Stmt::Begin
@@ -713,23 +831,23 @@ pub fn gen_case(r: &mut Rng, cfg: &GenCfg) -> Case {
         } else {
             // savepoint operations (mostly inside a transaction)
             let names = ["a", "b", "c", "d"];
-            if !in_txn && r.chance(4, 5) {
-                in_txn = true;
-                saves.clear();
+            if !g.in_txn && r.chance(4, 5) {
+                g.in_txn = true;
+                g.saves.clear();
                 Stmt::Begin
             } else {
                 let k = r.below(10);
-                if k < 5 || saves.is_empty() {
+                if k < 5 || g.saves.is_empty() {
                     let n = r.pick(&names).to_string();
-                    saves.push(n.clone());
+                    g.saves.push(n.clone());
                     Stmt::Savepoint(n)
                 } else if k < 8 {
-                    let n = if r.chance(5, 6) { r.pick(&saves).clone() } else { r.pick(&names).to_string() };
+                    let n = if r.chance(5, 6) { r.pick(&g.saves).clone() } else { r.pick(&names).to_string() };
                     Stmt::RollbackTo(n)
                 } else {
-                    let n = if r.chance(5, 6) { r.pick(&saves).clone() } else { r.pick(&names).to_string() };
-                    if let Some(i) = saves.iter().position(|x| *x == n) {
-                        saves.remove(i);
+                    let n = if r.chance(5, 6) { r.pick(&g.saves).clone() } else { r.pick(&names).to_string() };
+                    if let Some(i) = g.saves.iter().position(|x| *x == n) {
+                        g.saves.remove(i);
                     }
                     Stmt::Release(n)
                 }
@@ -737,7 +855,7 @@ pub fn gen_case(r: &mut Rng, cfg: &GenCfg) -> Case {
         };
         stmts.push(st);
     }
-    Case { schema, stmts }
+    stmts
 }
 
 pub fn script(c: &Case, upto: usize) -> String {
@@ -786,6 +904,11 @@ pub fn run_case_opts(c: &Case, model: &mut model::Model, rep: &mut Report, label
             Some(Err(e)) => {
                 rep.fail(FailKind::Oracle, None, "an index of the table cannot be read through the accessors", &format!("{}-- {}", script(c, k + 1), e));
                 oracle_failed = true;
+                break;
+            }
+            None if matches!(st, Stmt::Raw(_)) => {
+                // the history itself dropped the table: nothing more to compare for this table
+                rep.count("table_dropped_by_history");
                 break;
             }
             None => {
